@@ -4,6 +4,7 @@ import (
 	"encoding/hex"
 	"fmt"
 	"math/big"
+	"regexp"
 	"strings"
 )
 
@@ -281,8 +282,7 @@ func registerSDK2(P *Program) {
 		}
 	}
 	P.reg("github.com/cosmos/cosmos-sdk/types/msgservice.RegisterMsgServiceDesc", nop)
-	P.reg("regexp.MustCompile", func(it *Interp, a []Value) Value { return PoisonV{Why: "regexp"} })
-	P.reg("regexp.Compile", func(it *Interp, a []Value) Value { return Tuple{PoisonV{Why: "regexp"}, (*ErrV)(nil)} })
+	registerRegexp(P)
 	P.reg("zzverif.Codec", func(it *Interp, a []Value) Value { return blobCodec })
 	P.reg("github.com/cosmos/gogoproto/proto.Clone", func(it *Interp, a []Value) Value {
 		iv, ok := a[0].(*IfaceV)
@@ -357,4 +357,45 @@ func pbUnmarshal(it *Interp, a []Value) Value {
 func pbSize(it *Interp, a []Value) Value {
 	p := a[0].(*Ptr)
 	return it.blobLen(&BlobV{Kind: pbKind(it, p), V: nil})
+}
+
+// RegexpV is a natively compiled regular expression (patterns and subjects are concrete).
+type RegexpV struct{ Re *regexp.Regexp }
+
+func registerRegexp(P *Program) {
+	P.reg("regexp.MustCompile", func(it *Interp, a []Value) Value {
+		re, err := regexp.Compile(a[0].(string))
+		if err != nil {
+			panic(&GoPanic{Msg: "regexp: " + err.Error()})
+		}
+		return &RegexpV{Re: re}
+	})
+	P.reg("regexp.Compile", func(it *Interp, a []Value) Value {
+		re, err := regexp.Compile(a[0].(string))
+		if err != nil {
+			return Tuple{(*Ptr)(nil), &ErrV{Root: "regexp", Msg: err.Error()}}
+		}
+		return Tuple{&RegexpV{Re: re}, (*ErrV)(nil)}
+	})
+	re := func(it *Interp, v Value) *regexp.Regexp {
+		it.checkPoison(v)
+		r, ok := v.(*RegexpV)
+		if !ok {
+			panic(unsupported(fmt.Sprintf("regexp receiver %T", v)))
+		}
+		return r.Re
+	}
+	P.reg("(*regexp.Regexp).MatchString", func(it *Interp, a []Value) Value {
+		s, ok := a[1].(string)
+		if !ok || strings.Contains(s, symStrMark) {
+			panic(unsupported("regexp match on non-constant string"))
+		}
+		return re(it, a[0]).MatchString(s)
+	})
+	P.reg("(*regexp.Regexp).Match", func(it *Interp, a []Value) Value {
+		return re(it, a[0]).Match(it.concBytes(a[1]))
+	})
+	P.reg("(*regexp.Regexp).String", func(it *Interp, a []Value) Value { return re(it, a[0]).String() })
+	P.reg(HaqqMod+"/utils.UnsafeStrToBytes", func(it *Interp, a []Value) Value { return it.mkBytes([]byte(a[0].(string))) })
+	P.reg(HaqqMod+"/utils.UnsafeBytesToStr", func(it *Interp, a []Value) Value { return string(it.concBytes(a[0])) })
 }
